@@ -1,7 +1,7 @@
 import sys; sys.path.insert(0, '/verif/harness')
 import mkprops as m
 J = 'Proofs/Json.v'; P = 'Proofs/Pbn.v'
-IMP = ('From BE Require Import Model.Json Model.Schema Model.Pbn Gen.JsonFraming Gen.Schemas Gen.Regexes Proofs.Json Proofs.Pbn Proofs.Pins.\n'
+IMP = ('From BE Require Import Model.Json Model.Schema Model.Pbn Model.JsonFramingHand Model.SchemasHand Gen.Regexes Proofs.Json Proofs.Pbn Proofs.Pins Proofs.JsonPins.\nFrom BE Require Gen.JsonFraming Gen.Schemas.\n'
        'From Coq Require Import ZArith.\nLocal Open Scope string_scope.\nLocal Open Scope nat_scope.\nLocal Open Scope list_scope.')
 m.write('C17', 'Board-settings files are read back as the boards that were written, in order.', ('From BE Require Import Gen.JsonFns Proofs.JsonGen Proofs.JsonGenCor.\n' + IMP), '', [
  (J, 'setting_roundtrip', 'C17_json_setting_roundtrip', 'JSON: every board setting, double-dummy table included'),
@@ -12,6 +12,8 @@ m.write('C17', 'Board-settings files are read back as the boards that were writt
  ('Proofs/JsonGen.v', 'g_setting_of_json_eq', 'C17_generated_setting_reader_is_hand_model', 'convert_board_setting regenerated from parser.py equals the hand model on EVERY JSON value'),
  ('Proofs/JsonGen.v', 'g_parse_board_settings_eq', 'C17_generated_settings_reader_is_hand_model', None, {'parse_board_settings': 'Json.parse_board_settings'}),
  ('Proofs/JsonGenCor.v', 'g_settings_roundtrip', 'C17_json_settings_roundtrip_generated', 'the property, for the regenerated writer and reader'),
+ ('Proofs/JsonPins.v', 'framing_pinned', 'C17_source_framing_is_the_modelled_one', 'the framing literals re-read from writer.py on this run are the ones the proofs use'),
+ ('Proofs/JsonPins.v', 'setting_schema_pinned', 'C17_source_schema_is_the_modelled_one', None),
  (J, 'ex_settings_written_and_read', 'C17_json_example', 'non-vacuity', {'parse_board_settings': 'Json.parse_board_settings'}),
  (P, 'parse_all_layout', 'C17_pbn_layouts', 'PBN: every admissible layout - header lines, LF or CR LF, runs of blank lines before / between / after games, tags in any order, extra and repeated tags, table rows - is read as its games, first occurrence of each tag winning'),
  (P, 'settings_of_layout', 'C17_pbn_settings_of_layout', 'hence the boards: deal written from any first seat, any accepted vulnerability spelling, dealer, id - in order'),
@@ -20,7 +22,7 @@ m.write('C17', 'Board-settings files are read back as the boards that were writt
  (P, 'ex_layout_settings', 'C17_pbn_example_settings', None),
 ])
 G = 'Proofs/PbnGen.v'; GC = 'Proofs/PbnGenCor.v'
-m.write('C18', 'PBN export is read back by the PBN parser, one game per board.', IMP.replace('Proofs.Pins.', 'Proofs.Pins Gen.PbnFns Proofs.PbnGen Proofs.PbnGenCor.'), '', [
+m.write('C18', 'PBN export is read back by the PBN parser, one game per board.', IMP.replace('Proofs.JsonPins.', 'Proofs.JsonPins Gen.PbnFns Proofs.PbnGen Proofs.PbnGenCor.'), '', [
  (P, 'write_line_le_255', 'C18_write_line_le_255', 'any text: every line written has at most 255 characters'),
  (P, 'write_line_ends_lines', 'C18_write_line_ends_lines', None),
  (P, 'write_line_keeps_text', 'C18_write_line_keeps_text', None),
